@@ -3,6 +3,12 @@
 import json, os
 HERE = os.path.dirname(os.path.dirname(os.path.abspath(__file__)))
 CHECKS = {
+ "C01": dict(cat="model_checking", technique="TLA+ definitional tree semantics (TskTrees/TskTreeViews): TLC-enumerated universe replayed into the library, every tree/view validated by TLC",
+    text="TLC enumerates every node/edge table of the small-scope universe (4 nodes, L=3, <=3 edges; thorough adds 5 nodes) and the harness loads each into the real library; every tree reported by iteration/at/at_index/first/last/reversed and every derived view (linked arrays, roots, counts, sample lists, MRCA/depth/branch lengths, 8 traversal orders, sites/mutations, edge_diffs both directions, edgesets, breakpoints) is then validated by TLC against the declarative definitions; random larger tree sequences extend this. The incremental algorithm's design is model-checked in MC_TreeCursor (C06).",
+    note="Bounded universe; tree options and the site layer are sampled per element; times integer-valued so branch lengths are exact; traversal orders relative to reported child order.", ref="DESIGN.md §3 C01"),
+ "C02": dict(cat="model_checking", technique="TLA+ declarative Valid(tc); TLC enumerates every single-field corruption with its verdict (replayed on the real gate) and validates recorded gate decisions",
+    text="Valid(tc) is the data model's requirement list written declaratively in TLA+. TLC enumerates, for each valid seed, every single-field boundary departure, row swap/duplication and user-index corruption with the expected verdict; each is replayed on tree_sequence() and dump->tskit.load in isolated processes (accept iff Valid, library exception type, rows unchanged). Random multi-field corruptions are run on the real gate and validated by TLC.",
+    note="Seeds are small (<=5 nodes); error codes not compared; non-finite sequence_length is outside the property's requirement list and not generated.", ref="DESIGN.md §3 C02"),
  "C06": dict(cat="model_checking", technique="TLA+ TreeCursor machine: TLC exhaustive MC + TLC trace validation of recorded Tree histories + replay of TLC-simulated behaviours",
     text="TLC exhaustively explores the transcribed tsk_tree_t/tsk_tree_position_t machine over all node/edge tables with <=4 nodes, L=3, <=3 edges x root_threshold x tracked samples and checks that every reachable cursor state equals the definitional tree of its index; real tskit.Tree navigation histories (two handles, copy) are validated step by step against the same actions (code->spec), and TLC-simulated behaviours are replayed on real Trees (spec->code).",
     note="Bounded model (not an unbounded proof); child order abstracted to sets; coordinates enter through order only (monotone maps); harness trusts the Python accessors used for projection.", ref="DESIGN.md §3 C06"),
